@@ -72,6 +72,7 @@ type Exec struct {
 	preAssume       []string
 	sentinels       map[string]types.Type
 	entryIndex      int
+	topFrame        *frame
 }
 
 func newExec(w *World, u *Unit) *Exec {
@@ -125,10 +126,20 @@ func (ex *Exec) name(prefix, term, sort string) string {
 
 // nameMin names every compound term of at least min characters.
 func (ex *Exec) nameMin(prefix, term, sort string, min int) string {
-	if ex.pure > 0 || len(term) < min || !strings.HasPrefix(term, "(") {
+	if ex.discover {
+		// the discovery pass only needs the structure of the execution, not the terms
+		if strings.HasPrefix(term, "(") && len(term) > 24 {
+			return "d!"
+		}
 		return term
 	}
-	if ex.discover {
+	if ex.pure > 0 {
+		if len(term) > 4<<20 {
+			panic(unsupported("specification term exceeds the VC size cap (4 MiB)"))
+		}
+		return term
+	}
+	if len(term) < min || !strings.HasPrefix(term, "(") {
 		return term
 	}
 	n := ex.freshConst(prefix, sort)
